@@ -264,6 +264,24 @@ func c07Classes(small bool) map[string][]c07Sc {
 					}), Red: c07Red{Stop: -1, End: 1}, Expect: []string{"deadline"}})
 			}
 		}
+		// --- context ends while the generator keeps producing (all entry points that take a context)
+		if n == 1 {
+			for _, e := range []string{"MapReduce", "MapReduceVoid", "MapReduceChan", "ForEach"} {
+				for _, a := range []int{0, 2} {
+					a := a
+					exp := "deadline"
+					if e == "ForEach" {
+						exp = "return"
+					}
+					add(c07Sc{Class: "ctx-done+generator-keeps-producing", Entry: e, N: 6064, Workers: w, GenPanicAt: -1, Ctx: "live", Endless: 6000,
+						Items: c07Items(4, func(i int, it *c07It) {
+							if i == a {
+								it.Act = "ctx"
+							}
+						}), Red: c07Red{Stop: -1, End: 1}, Expect: []string{exp}})
+				}
+			}
+		}
 		// --- Finish with an error
 		if n >= 1 && n <= 40 {
 			for _, a := range c07Picks(n) {
@@ -401,7 +419,7 @@ func c07RunClasses(t *testing.T, m *vk.M, base int, small bool, rounds int, name
 
 var c07CoreClasses = []string{"normal", "reducer-writes-zero-value", "cancel-in-progress+reducer-write", "saturate", "reducer-stops-early", "reducer-early-output", "reducer-writes-twice",
 	"mapper-cancel", "reducer-cancel", "first-cancel-wins", "mapper-panic", "three-mapper-panics", "generator-panic", "reducer-panic",
-	"ctx-done-mid-run", "ctx-done-before-call", "finish-error", "reducer-early-output+late-cancel"}
+	"ctx-done-mid-run", "ctx-done+generator-keeps-producing", "ctx-done-before-call", "finish-error", "reducer-early-output+late-cancel"}
 
 const c07GatedRule = "gated scenarios (callbacks sequenced by harness channels so that one outcome is legal): worker settings {WithWorkers(0),1,2,3,4,default 16} x item counts {0,1,w-1,w,w+1,3w+1,10w} x entry points; asserted: outcome class, each item mapped <=1 (==1 without terminating event), each written value reduced <=1 (==1 when the reducer consumed everything), concurrent mappers <= bound, call returns (25 s watchdog), no goroutine in lib/mr frames once callbacks and generator have returned"
 
